@@ -587,7 +587,8 @@ type summary struct {
 	Viol       []*vrec          `json:"viol,omitempty"`
 	Sample     *dcase           `json:"sample,omitempty"`
 	Stopped    bool             `json:"stopped,omitempty"`
-	Hang       bool             `json:"hang,omitempty"` // the worker gave up at a pair that never returned
+	Abandoned  bool             `json:"abandoned,omitempty"` // shard given up after a worker death (see worker)
+	Hang       bool             `json:"hang,omitempty"`      // the worker gave up at a pair that never returned
 }
 
 // hangAfter: a LineDiff call (microseconds of work) that has not returned after this long is
@@ -633,6 +634,14 @@ func worker(w *core.Worker) {
 		}
 		if w.Only < 0 && !deadline.IsZero() && time.Now().After(deadline) {
 			w.Emit(summary{Block: idx, Stopped: true})
+			continue
+		}
+		if w.Only < 0 && w.Start > 0 {
+			// This worker is the restart after a death in this shard. The death is reported with its
+			// exact case and the run fails anyway; when the defect is systematic nearly every block dies
+			// and each death costs three process starts, so the rest of the shard is given up (recorded
+			// as not exhaustive) instead of being ground through.
+			w.Emit(summary{Block: idx, Abandoned: true})
 			continue
 		}
 		w.Case(idx, b.desc)
@@ -712,7 +721,7 @@ func run(c *core.Ctx) {
 	}
 	viol := map[string]*best{}
 	seen := make([]bool, len(blocks))
-	stopped, maxLines, hangs := 0, 0, 0
+	stopped, maxLines, hangs, abandoned := 0, 0, 0, 0
 	c.RunShards(core.ShardOpts{
 		N:       16,
 		Env:     []string{"GOMAXPROCS=1", "GOGC=400"}, // 16 single-threaded workers
@@ -727,6 +736,10 @@ func run(c *core.Ctx) {
 			}
 			if s.Stopped {
 				stopped++
+				return
+			}
+			if s.Abandoned {
+				abandoned++
 				return
 			}
 			if s.Hang {
@@ -829,6 +842,10 @@ func run(c *core.Ctx) {
 		if !s {
 			missing++
 		}
+	}
+	if abandoned > 0 {
+		c.Capped(fmt.Sprintf("%d of %d blocks not run: their shard was given up after a worker death", abandoned, len(blocks)))
+		missing -= abandoned
 	}
 	if hangs > 0 {
 		c.Capped(fmt.Sprintf("%d worker(s) ended their shard at a hanging pair; %d of %d blocks not run", hangs, missing, len(blocks)))
